@@ -44,9 +44,13 @@ func (l c08Loader) LoadProvider(ctx context.Context, name string) (esc.Provider,
 	return nil, fmt.Errorf("unknown provider %q", name)
 }
 
-type c08Envs struct{}
+// c08Envs serves the import layers of a "merged" case (name -> YAML text); empty otherwise.
+type c08Envs map[string]string
 
-func (c08Envs) LoadEnvironment(ctx context.Context, name string) ([]byte, eval.Decrypter, error) {
+func (e c08Envs) LoadEnvironment(ctx context.Context, name string) ([]byte, eval.Decrypter, error) {
+	if t, ok := e[name]; ok {
+		return []byte(t), nil, nil
+	}
 	return nil, nil, fmt.Errorf("no environments")
 }
 
@@ -114,8 +118,32 @@ func c08(c map[string]any) map[string]any {
 		return map[string]any{"res": "schema-unmarshal"}
 	}
 	var b strings.Builder
-	b.WriteString("values:\n  x:\n    fn::open::stub: ")
-	if str(c, "via") == "fromjson" {
+	envs := c08Envs{}
+	if layers, ok := c["layers"].([]any); ok && str(c, "via") == "merged" && len(layers) >= 1 {
+		// the value reaches the gate as a REFERENCE to an object merged from the import layers (bottom first) and the
+		// environment's own layer (last): imports [b0, b1, ...], cfg: <top layer>, x: fn::open::stub: ${cfg}
+		b.WriteString("imports: [")
+		for i := 0; i+1 < len(layers); i++ {
+			var lb strings.Builder
+			lb.WriteString("values:\n  cfg: ")
+			c08YAML(&lb, layers[i])
+			lb.WriteString("\n")
+			name := fmt.Sprintf("b%d", i)
+			envs[name] = lb.String()
+			if i > 0 {
+				b.WriteString(", ")
+			}
+			b.WriteString(name)
+		}
+		b.WriteString("]\nvalues:\n  cfg: ")
+		c08YAML(&b, layers[len(layers)-1])
+		b.WriteString("\n  x:\n    fn::open::stub: ${cfg}")
+	} else {
+		b.WriteString("values:\n  x:\n    fn::open::stub: ")
+	}
+	if str(c, "via") == "merged" {
+		// value written above
+	} else if str(c, "via") == "fromjson" {
 		vj, _ := json.Marshal(c["value"])
 		b.WriteString("{\"fn::fromJSON\": " + c08Quote(string(vj)) + "}")
 	} else {
@@ -134,6 +162,6 @@ func c08(c map[string]any) map[string]any {
 	if err != nil {
 		return map[string]any{"res": "execctx"}
 	}
-	_, diags := eval.EvalEnvironment(context.Background(), "c08", decl, nil, loader, c08Envs{}, execCtx)
+	_, diags := eval.EvalEnvironment(context.Background(), "c08", decl, nil, loader, envs, execCtx)
 	return map[string]any{"res": "ok", "opens": opens, "diag": diags.HasErrors()}
 }
